@@ -37,7 +37,8 @@ CONSTANTS
     InclSet,      \* {FALSE} or {FALSE, TRUE}: inclusive range ends
     Apis,         \* subset of {"p", "t"}: panicking / try_ entry points
     DrainF, DrainB, \* bounds on the number of next() / next_back() calls on a drain
-    OutFilter,    \* outcomes of operations that are generated ({"ok", "panic", "full"} = all; focused emission sets use less)
+    OutFilter,    \* outcomes of operations that are generated: subset of {"ok", "panic", "full", "inject"} ("inject" = a retain
+                  \* whose predicate panics, "panic" = every other expected panic); focused emission sets use less than all
     CheckProps,   \* assert StepProps on every transition (model checking) or not (behaviour emission)
     SampleK       \* 0: every index / range / retain mask is an argument (exhaustive); k > 0: a random subset of k of
                   \* them per evaluation (random walks: keeps the number of candidate successors per step small)
@@ -133,7 +134,7 @@ Start(o) ==
 \* operation step with the given outcome
 Do(o, out) ==
     LET r == Apply(St, o, Lits) IN
-    /\ out \in OutFilter
+    /\ (IF o.name = "retain" /\ out = "panic" THEN "inject" ELSE out) \in OutFilter
     /\ r.out = out
     /\ kind' = kind
     /\ Commit(St, o, r)
